@@ -104,3 +104,8 @@ def run(ctx):
         m = dn_meta[i]
         ctx.violation(f"MVCAPA.transform does not mark exactly the reported columns on exactly the anomalies' rows: anomalies {m['impl_anomalies']}", m,
                       {"what": "dense-marking"})
+
+    from harness.variants import variants_stream
+    from skchange.anomaly_detectors import MVCAPA as _MVCAPA
+    variants_stream(ctx, "MVCAPA(sparse)", lambda: _MVCAPA(min_segment_length=2, max_segment_length=30, collective_penalty="sparse"), ctx.n(4, 20), p_choices=(2, 3, 4),
+                    flat_make=lambda: _MVCAPA(min_segment_length=2, collective_penalty_scale=1e6, point_penalty_scale=1e6))
